@@ -29,7 +29,7 @@ Definition ev_wire (e : ev) : nat * nat :=
 Definition err_wire (e : err) : nat * nat :=
   match e with
   | ErrXStart n => (0, n) | ErrXStop n => (1, n) | ErrCStart n => (2, n) | ErrCStop n => (3, n)
-  | ErrCfg n => (4, n) | ErrReady n => (5, n) | ErrNotReady n => (6, n)
+  | ErrCfg n => (4, n) | ErrReady n => (5, n) | ErrNotReady n => (6, n) | ErrProvider n => (9, n)
   end.
 
 Definition pair_eqb (a b : nat * nat) : bool := Nat.eqb (fst a) (fst b) && Nat.eqb (snd a) (snd b).
@@ -129,7 +129,8 @@ Fixpoint split_gens (fuel : nat) (L : list (list nat)) (P : list (list (nat * na
 
 Definition gen_of (lp : list (list nat) * list (list (nat * nat))) : gen :=
   {| gn_graph := graph_of (fst lp) (snd lp); gn_ext := extset_of (fst lp) (snd lp);
-     gn_ord := orders_of (fst lp); gn_faults := faults_of (fst lp) |}.
+     gn_ord := orders_of (fst lp); gn_faults := faults_of (fst lp);
+     gn_close_fails := flag 0 (nthL 16 (fst lp)) |}.
 
 Fixpoint check_gens (gs : list (list (list nat) * list (list (nat * nat)))) (ms : list (list ev * list err)) : bool :=
   match gs, ms with
@@ -146,7 +147,8 @@ Fixpoint check_gens (gs : list (list (list nat) * list (list (nat * nat)))) (ms 
 
 Definition check_reload (L : list (list nat)) (P : list (list (nat * nat))) : bool :=
   let gs := split_gens (length L) L P in
-  check_gens gs (collector_run_reload (map gen_of gs)).
+  (* L[17] of generation 0 = [the provider's Shutdown fails]; L[16] of a generation = [its close function fails] *)
+  check_gens gs (collector_run_reload (flag 0 (nthL 17 L)) (map gen_of gs)).
 
 Definition model_shared (L : list (list nat)) : list (nat * nat) * list nat :=
   let ops := map (fun b => Nat.eqb b 1) (nthL 0 L) in
@@ -176,7 +178,7 @@ Definition model_out (c : nat * (list (list nat) * list (list (nat * nat))))
   | 4 => let '(evs, errs) := model_shared L in Some (evs, map (fun e => (9, e)) errs)
   | 6 => let gs := split_gens (length L) L P in
          (* replay aid: generation separators (99, j) between the per-generation logs *)
-         let ms := collector_run_reload (map gen_of gs) in
+         let ms := collector_run_reload (flag 0 (nthL 17 L)) (map gen_of gs) in
          Some (flat_map (fun m => (99, 0) :: map ev_wire (fst m)) ms, flat_map (fun m => (99, 0) :: map err_wire (snd m)) ms)
   | _ => model_lifecycle kind L P
   end.
